@@ -383,7 +383,7 @@ func init() {
 			{Name: "VxC41", Pkg: "github.com/goplus/xgo/x/fakenet", Files: []string{"c41/c41.go", "gen:instrument"}, Goroutine: true,
 				Quick: map[string]int{"W": 0, "R": 1, "CLOSE": 1, "PB": 1}, Thorough: map[string]int{"W": 0, "R": 1, "CLOSE": 1, "PB": 2}, MaxSteps: 3_000_000},
 			{Name: "VxC41", Pkg: "github.com/goplus/xgo/x/fakenet", Files: []string{"c41/c41.go", "gen:instrument"}, Goroutine: true,
-				Quick: map[string]int{"W": 0, "R": 0, "CLOSE": 2, "PB": 2}, Thorough: map[string]int{"W": 1, "R": 0, "CLOSE": 2, "PB": 1}, MaxSteps: 3_000_000},
+				Quick: map[string]int{"W": 0, "R": 0, "CLOSE": 2, "PB": 1}, Thorough: map[string]int{"W": 1, "R": 0, "CLOSE": 2, "PB": 1}, MaxSteps: 3_000_000},
 			{Name: "VxC41", Pkg: "github.com/goplus/xgo/x/fakenet", Files: []string{"c41/c41.go", "gen:instrument"}, Goroutine: true,
 				Quick: map[string]int{"W": 2, "R": 0, "CLOSE": 0, "PB": 2}, Thorough: map[string]int{"W": 1, "R": 1, "CLOSE": 1, "PB": 1}, MaxSteps: 3_000_000},
 			{Name: "VxC41", Pkg: "github.com/goplus/xgo/x/fakenet", Files: []string{"c41/c41.go", "gen:instrument"}, Goroutine: true,
